@@ -4,7 +4,9 @@
 (* points of the SAME product to the real generator), extended by the       *)
 (* values only the real code is run on (decimal scale, larger targets).     *)
 EXTENDS MC_ScaleGen
-ResValues == R1 \cup {<<1, 2>>, <<3, 2>>, <<1, 10>>, <<33, 10>>, <<400, 1>>, <<21, 1>>}
+\* ... and voxel sizes with more than three decimals (sixteenths, exactly representable)
+ResValues == R1 \cup {<<1, 2>>, <<3, 2>>, <<1, 10>>, <<33, 10>>, <<400, 1>>, <<21, 1>>,
+                      <<1, 16>>, <<61, 16>>, <<3, 8>>}
 SizeValues == S1
 TargetExps == 1..8
 MaxScales == {0, 1, 2, 3}
